@@ -230,6 +230,17 @@ Section PhaseP.
       + destruct HQ as [HQ1 HQ2]. eapply IH; [exact H | exact HQ2 |]. now apply Hstep.
   Qed.
 
+  Lemma phase_nil : forall old new af acc,
+    phase cp max_param [] old new af acc = if Nat.eqb old new then Some (af, new, acc, []) else None.
+  Proof. reflexivity. Qed.
+
+  Lemma phase_cons : forall o os' old new af acc,
+    phase cp max_param (o :: os') old new af acc =
+    if Nat.eqb old new then Some (af, new, acc, o :: os')
+    else phase cp max_param os' new (nuniq (fst (fst (one_round cp max_param af o)))) (fst (fst (one_round cp max_param af o)))
+           (acc ++ [mk_round (fst (fst (one_round cp max_param af o))) (snd (fst (one_round cp max_param af o))) (snd (one_round cp max_param af o))]).
+  Proof. reflexivity. Qed.
+
   Lemma phase_all_true : forall os old new af, phase_all (fun _ _ => True) os old new af.
   Proof.
     induction os as [|o os' IH]; intros old new af; simpl; destruct (Nat.eqb old new); auto.
@@ -707,7 +718,7 @@ Section MainP.
       - assert (Hf : o_final o = unmerge E (o_lib o) T) by (subst o; reflexivity).
         rewrite Hf. destruct (unmerge_sound E (o_lib o) T LM LS HT) as [_ [_ [U3 [U4 [U5 _]]]]].
         destruct (in_dec Nat.eq_dec i T) as [HiT|HiT].
-        + destruct (U3 i HiT) as [q' [W1 [W2 [W3 W4]]]]. exists q', (nth i E 0%N), []. repeat split; auto; try apply step_refl. lia.
+        + destruct (U3 i HiT) as [q' [W1 [W2 [W3 W4]]]]. exists q', (nth i E 0%N), []. split; [exact W1|]. split; [exact W3|]. split; [exact W4|]. apply step_refl.
         + destruct (U4 i HiT) as [W1 W2]. exists q, u, c. rewrite W1, W2.
           split; [assumption|]. split; [|split; assumption].
           rewrite U5; [assumption|]. apply nth_error_Some. congruence.
@@ -734,12 +745,12 @@ Section ProvP.
     phase cp max_param os old new af acc = Some (af2, new2, acc2, os2) ->
     (forall o, In o os -> In o all) -> prov_inv all af acc -> prov_inv all af2 acc2.
   Proof.
-    intros all. induction os as [|o os' IH]; intros old new af acc af2 new2 acc2 os2 H Hsub HP; simpl in H.
-    - destruct (Nat.eqb old new); [|discriminate]. inversion H; subst. exact HP.
-    - destruct (Nat.eqb old new); [inversion H; subst; exact HP|].
+    intros all. induction os as [|o os' IH]; intros old new af acc af2 new2 acc2 os2 H Hsub HP.
+    - rewrite phase_nil in H. destruct (Nat.eqb old new); [|discriminate]. inversion H; subst. exact HP.
+    - rewrite phase_cons in H. destruct (Nat.eqb old new); [inversion H; subst; exact HP|].
       eapply IH; [exact H | intros; apply Hsub; now right |].
       intros r i s Hr Hs. apply in_app_or in Hr. destruct Hr as [Hr|[Hr|[]]]; [eapply HP; eauto|].
-      subst r. cbn [rr_inv] in Hs.
+      subst r. unfold rr_inv in Hs. cbv beta iota in Hs.
       destruct (one_round_spec cp max_param af o) as [L1 [L2 Hsp]].
       destruct (nth_error af i) as [f|] eqn:Ef.
       + destruct (Hsp i f Ef) as [f' [oc [H1 [H2 H3]]]].
@@ -770,3 +781,76 @@ Section ProvP.
     - rewrite nth_overflow in Hs by lia. contradiction.
   Qed.
 End ProvP.
+
+(* ------------------------------------------------------------------ a concrete run (non-vacuity)
+   strings 1 = '3 - a0', 2 = '3 + a0', 3 = '3 + a0 + a1' (values at a fixed x); substitution 1 = {a0: -a0}, 0 = nan *)
+From Coq Require Import ZArith.
+Definition ex_den (f : N) (th : Z * Z) : Z :=
+  (if N.eqb f 1 then 3 - fst th else if N.eqb f 2 then 3 + fst th else if N.eqb f 3 then 3 + fst th + snd th else 0)%Z.
+Definition ex_sden (s : N) (th : Z * Z) : Z * Z := if N.eqb s 1 then (- fst th, snd th)%Z else th.
+Definition ex_npar (f : N) : nat := if N.eqb f 3 then 2 else 1.
+Definition ex_cp := ex_npar.
+Definition ex_E : list N := [1; 2; 1; 3]%N.
+Definition ex_o0 : round_oracle := [[]; [(2%N, Some [1%N]); (2%N, None)]; [(2%N, Some [0%N])]].
+Definition ex_o1 : round_oracle := [[]; [(2%N, None)]; []].
+Definition ex_os := [ex_o0; ex_o1; ex_o1].
+Definition ex_main := main ex_cp 2 ex_E [] ex_os [0] (fun c => c) true [].
+
+Lemma ex_runs : option_map o_final ex_main = Some (mk_lib [2%N] [0; 0; 0; 0] [[1%N]; []; [1%N]; [0%N]]).
+Proof. vm_compute. reflexivity. Qed.
+
+
+Ltac solve_step := unfold step_sound, ex_npar, ex_den, ex_sden, compose;
+  cbn [has_nan existsb nan_sub N.eqb Pos.eqb fold_right orb fst snd]; split; [lia|]; try lia; try (intros [a b]; cbn [fst snd]; lia).
+Ltac kill_idx H k := try discriminate H; try (destruct k; discriminate H).
+Ltac solve_call := let k := fresh "k" in let f := fresh "f" in let y := fresh "y" in let Hk1 := fresh "Hk1" in let Hk2 := fresh "Hk2" in
+  intros k f y Hk1 Hk2; destruct k as [|[|[|k]]]; simpl in Hk1, Hk2; kill_idx Hk1 k; kill_idx Hk2 k; inversion Hk1; inversion Hk2; subst; cbn [fst snd chain_or_nil]; solve_step.
+Ltac solve_round := let g := fresh "g" in let inp := fresh "inp" in let H := fresh "H" in
+  intros g inp H; vm_compute in H; destruct g as [|[|[|g]]]; kill_idx H g; inversion H; subst; simpl nth; solve_call.
+
+Lemma ex_sound : run_sound Z (Z * Z) ex_den ex_sden ex_npar ex_cp 2 (inherit ex_E []) ex_os.
+Proof.
+  assert (R0 : round_sound Z (Z * Z) ex_den ex_sden ex_npar ex_cp 2 [1;2;1;3]%N ex_o0) by solve_round.
+  assert (R1 : round_sound Z (Z * Z) ex_den ex_sden ex_npar ex_cp 2 [2;2;2;2]%N ex_o1) by solve_round.
+  unfold run_sound.
+  replace (phase ex_cp 2 ex_os 0 (length (inherit ex_E [])) (inherit ex_E []) []) with
+    (Some ([2;2;2;2]%N, 1, [mk_round [2;2;2;2]%N [Some [1%N]; None; Some [1%N]; Some [0%N]] [[]; [1;2]%N; [3%N]];
+                             mk_round [2;2;2;2]%N [None; None; None; None] [[]; [2%N]; []]], [ex_o1])) by (vm_compute; reflexivity).
+  split.
+  - change (inherit ex_E []) with [1;2;1;3]%N. unfold ex_os.
+    cbn [phase_sound length Nat.eqb]. split; [exact R0|].
+    replace (fst (fst (one_round ex_cp 2 [1;2;1;3]%N ex_o0))) with [2;2;2;2]%N by (vm_compute; reflexivity).
+    replace (nuniq [2;2;2;2]%N) with 1 by (vm_compute; reflexivity).
+    cbn [phase_sound Nat.eqb]. split; [exact R1|].
+    replace (fst (fst (one_round ex_cp 2 [2;2;2;2]%N ex_o1))) with [2;2;2;2]%N by (vm_compute; reflexivity).
+    replace (nuniq [2;2;2;2]%N) with 1 by (vm_compute; reflexivity).
+    cbn [phase_sound Nat.eqb]. exact I.
+  - cbn [phase_sound Nat.eqb]. split; [exact R1|].
+    replace (fst (fst (one_round ex_cp 2 [2;2;2;2]%N ex_o1))) with [2;2;2;2]%N by (vm_compute; reflexivity).
+    replace (nuniq [2;2;2;2]%N) with 1 by (vm_compute; reflexivity).
+    cbn [phase_sound Nat.eqb]. exact I.
+Qed.
+
+Lemma ex_cancel_ok : cancel_ok (Z * Z) ex_sden (fun c => c).
+Proof. intros c. split; [reflexivity | intros; reflexivity]. Qed.
+
+(* all hypotheses of C03_library hold together on this run, so its conclusion is not vacuous *)
+Lemma ex_library : forall i, i < 4 ->
+  exists q u c, option_map (fun o => nth_error (l_match (o_final o)) i) ex_main = Some (Some q) /\
+                option_map (fun o => nth_error (l_uniq (o_final o)) q) ex_main = Some (Some u) /\
+                option_map (fun o => nth_error (l_subs (o_final o)) i) ex_main = Some (Some c) /\
+                (has_nan c = true -> ex_npar u < ex_npar (nth i ex_E 0%N)) /\
+                (has_nan c = false -> forall theta, ex_den (nth i ex_E 0%N) (compose (Z * Z) ex_sden c theta) = ex_den u theta).
+Proof.
+  intros i Hi. destruct ex_main as [o|] eqn:Eo; [|vm_compute in Eo; discriminate].
+  unfold ex_main in Eo.
+  assert (HP : Permutation [0] (seq 0 (length (uniq_keys N.eqb (o_fun o))))).
+  { assert (E1 : option_map (fun o => length (uniq_keys N.eqb (o_fun o))) (main ex_cp 2 ex_E [] ex_os [0] (fun c => c) true []) = Some 1)
+      by (vm_compute; reflexivity).
+    rewrite Eo in E1. simpl in E1. inversion E1 as [E2]. rewrite E2. apply Permutation_refl. }
+  destruct (C03_library Z (Z * Z) ex_den ex_sden ex_npar ex_cp 2 ex_E [] ex_os [0] (fun c => c) true [] o Eo
+              ltac:(simpl; lia) ltac:(intros k f H; destruct k; discriminate) ltac:(intros r []) HP ex_sound ex_cancel_ok
+              ltac:(intros k f H; destruct k; discriminate) i Hi)
+    as [q [u [c [H1 [H2 [H3 [_ [H5 H6]]]]]]]].
+  exists q, u, c. simpl. rewrite H1, H2, H3. auto.
+Qed.
